@@ -688,6 +688,9 @@ class Spec:
                         except OutOfSubset:
                             pass
             k = k.parent
+        # facts every new instance of the class has (declared by the spec modules)
+        for h in getattr(self, 'alloc_hooks', {}).get(S.name(), []):
+            h(X, obj, cv)
         r = X.repo.find_method(kl.qual, '__init__') if kl.qual else None
         if r is not None:
             m, fn, q = r
@@ -731,8 +734,9 @@ class Spec:
         for name, text in ct.requires:
             X.oblige('%s:call-pre[%s].%s' % (X.fn_name, short, name),
                      self.eval_bool(X, text, env, closure.module), kind='call-pre', role='aux')
-        if ct.log_invocation:
-            gname, gtext = ct.log_invocation
+        logs = ct.log_invocation if isinstance(ct.log_invocation, list) else \
+            ([ct.log_invocation] if ct.log_invocation else [])
+        for gname, gtext in logs:
             lg = X.ghost.get(gname)
             if lg is None:
                 self.havoc_ghost(X, gname)
